@@ -27,6 +27,10 @@
       C19_json           -r json: the output is a single valid JSON document {tasks, out, err}, nothing else on
                          stdout / stderr, each task with a final report listed once with that result; the task list
                          equals what the bookkeeping model (jsonOf) yields for the callbacks that really happened
+                         also (json): complete_run raising in an otherwise normal run (e.g. an output stream that cannot
+                         encode a character) is a violation; whatever happens, complete_run gives sys.stdout / sys.stderr
+                         back (stream identity is checked at its end), and a serial run that exits 3 has put a
+                         diagnostic on the process' stderr
       C19_output         console family: the lines the real reporter wrote are exactly the lines it has to write
                          (Lean `render`) for the callbacks that really happened: one `.  t` per announced task with
                          actions, one `-- t` / `!! t` per skipped task (console), one failure header per failure, the
@@ -101,7 +105,9 @@ META = {
             'ok/failed/error, how the action fails), --continue on/off, reporter drawn from the five built-ins, runner '
             'serial | thread k=1..4 x schedule policy | process k=2,3; 1 in 12 graphs may be cyclic; 8% of the cases plant an '
             'exception that leaves run_tasks (uptodate callable raising; KeyboardInterrupt / SystemExit from an action, '
-            'serial); 35% of the json cases have printing actions at verbosity 2 (global or per task); exhaustive tier: every outcome assignment of '
+            'serial); 35% of the json cases have printing actions at verbosity 2 (global or per task); 30% of the json cases write to an '
+            'output stream that only encodes ascii / latin-1 while actions print non-ASCII text; 30% of the tasks that fail '
+            'by return value fail through a cmd-action killed by SIGKILL / SIGTERM instead; exhaustive tier: every outcome assignment of '
             'small fixed graphs x --continue x reporter, and every completion order of small thread cases; '
             'non-trivial = something got a final report and the case has an edge or a non-success outcome; distinct = '
             'distinct rendered case + reporter + schedule',
@@ -129,6 +135,7 @@ FAILCLS = {'TaskFailed': 'failed', 'TaskError': 'error', 'UnmetDependency': 'unm
 # ======================================================================================================
 
 _TEE = {}
+_CASE_OPTS = {}      # options of the case being run that the tee needs (out_encoding)
 
 
 def tee_class(kind):
@@ -148,10 +155,28 @@ def tee_class(kind):
         desc = 'tee of %s (verification harness)' % kind
 
         def __init__(self, outstream, options):
-            self._v_buf = io.StringIO()
+            enc = _CASE_OPTS.get('out_encoding')
+            if enc:
+                # a stdout whose encoding cannot represent every character (LANG=C, PYTHONIOENCODING=ascii, latin-1 console)
+                self._v_bytes = io.BytesIO()
+                self._v_buf = io.TextIOWrapper(self._v_bytes, encoding=enc, errors='strict', newline='')
+            else:
+                self._v_bytes = None
+                self._v_buf = io.StringIO()
+            self._v_enc = enc
             _LAST.clear()
             _LAST['kind'] = kind
+            _LAST['pre_streams'] = (sys.stdout, sys.stderr)
             base.__init__(self, self._v_buf, options)
+
+        def _v_text(self):
+            if self._v_bytes is None:
+                return self._v_buf.getvalue()
+            try:
+                self._v_buf.flush()
+            except Exception:  # noqa
+                pass
+            return self._v_bytes.getvalue().decode(self._v_enc, 'replace')
 
         def initialize(self, tasks, selected_tasks):
             rec().ev(['initialize', [rec().tid(t) for t in selected_tasks]])
@@ -196,13 +221,19 @@ def tee_class(kind):
 
         def complete_run(self):
             rec().ev(['complete'])
+            # complete_run is called from `finally: self.finish()`: an exception that is leaving run_all is visible here
+            inflight = sys.exc_info()[0]
+            _LAST['inflight'] = inflight.__name__ if inflight is not None else None
             try:
                 return base.complete_run(self)
             except BaseException as e:  # noqa
                 _LAST['raised'] = type(e).__name__
                 raise
             finally:
-                _LAST['text'] = self._v_buf.getvalue()
+                _LAST['text'] = self._v_text()
+                pre = _LAST.pop('pre_streams', (None, None))
+                # the reporter that redirects the process' streams (json) has to give them back, whatever happens
+                _LAST['streams_restored'] = (sys.stdout is pre[0] and sys.stderr is pre[1])
                 # whatever went to the process' stdout / stderr besides the reporter's own stream
                 _LAST['stray_out'] = sys.stdout.getvalue() if hasattr(sys.stdout, 'getvalue') else ''
                 _LAST['stray_err'] = sys.stderr.getvalue() if hasattr(sys.stderr, 'getvalue') else ''
@@ -223,7 +254,9 @@ def _wrap_task_dict(d, t, n, rec):
     """C19's additions to the task dict runlib builds (case format extension, per task under the key 'c19'):
       utd_raises: True            the task's `uptodate` callable raises (an exception leaves run_tasks)
       base_exc: 'KeyboardInterrupt' | 'SystemExit'    the action raises it after its start mark
-      prints: True                the action writes to stdout and stderr before doing what runlib's action does
+      prints: True | 'unicode'    the action writes to stdout and stderr (non-ASCII text for 'unicode') before doing what
+                                  runlib's action does
+      sigkill: 'KILL' | 'TERM'    (tasks whose outcome is 'failed') the failure is a cmd-action dying from that signal
       verbosity: 0|1|2            the task's own `verbosity`"""
     x = _extras(t)
     if not x or 'actions' not in d:
@@ -244,12 +277,18 @@ def _wrap_task_dict(d, t, n, rec):
         act_abort.__name__ = 'act_abort_%d' % n
         d['actions'] = [act_abort]
     elif x.get('prints'):
+        extra = ' \u00e9\u00fc \u2713 \u65e5\u672c' if x['prints'] == 'unicode' else ''
+
         def act_print():
-            sys.stdout.write('stdout of task %d\n' % n)
-            sys.stderr.write('stderr of task %d\n' % n)
+            sys.stdout.write('stdout of task %d%s\n' % (n, extra))
+            sys.stderr.write('stderr of task %d%s\n' % (n, extra))
             return orig()
         act_print.__name__ = 'act_print_%d' % n
         d['actions'] = [act_print]
+    if x.get('sigkill') and t['outcome'] == 'failed':
+        # the task fails because its last action, a cmd-action, dies from a signal: the python-action (start / end marks,
+        # targets) succeeds, then the shell that doit starts for the command kills itself (negative returncode)
+        d['actions'] = [runlib._make_action(rec, n, dict(t, outcome='ok', calc_res=None)), 'kill -%s $$' % x['sigkill']]
     if x.get('verbosity') is not None:
         d['verbosity'] = x['verbosity']
     return d
@@ -287,11 +326,14 @@ def run_impl19(case, keep_raw=True):
         return ns
     runlib.build_namespace = build
     _LAST.clear()
+    _CASE_OPTS.clear()
+    if case.get('out_encoding'):
+        _CASE_OPTS['out_encoding'] = case['out_encoding']
     try:
         obs = runlib.run_impl(case, keep_raw=keep_raw)
     finally:
         runlib.build_namespace = orig
-    obs['out'] = dict(_LAST)
+    obs['out'] = {k: v for k, v in _LAST.items() if k != 'pre_streams'}
     obs['full'] = full_trace(obs.get('raw'), obs['trace'])
     # ground truth: did an exception leave run_tasks because of something the harness planted?
     ab = None
@@ -471,7 +513,16 @@ def observe(case, keep_raw=True):
     text = out.get('text')
     obs['problems'] = []
     if kind == 'json':
-        outside = bool(obs['err'] or obs.get('aborted'))     # the run ended with an error outside task execution
+        # the run ended with an error outside task execution (the JSON document is not promised then): something the
+        # harness planted, or an exception was already leaving run_all when complete_run was called, or the run never
+        # got as far as complete_run.  An exception raised BY complete_run in an otherwise normal run is not that.
+        crashed = out.get('raised')
+        outside = bool(obs.get('aborted') or out.get('inflight') or (obs['err'] and not crashed))
+        if crashed and not outside:
+            obs['problems'].append('JsonReporter.complete_run raised %s' % crashed)
+            if (obs['err'] or '').startswith('crash:'):
+                obs['err_reporter'] = obs['err']
+                obs['err'] = None          # for the exit-code clause: nothing but the reporter went wrong
         if text is None:
             if not outside:
                 obs['problems'].append('the JSON reporter never completed (no document)')
@@ -482,11 +533,14 @@ def observe(case, keep_raw=True):
                 obs['doc'] = doc
             if prob and not outside:
                 obs['problems'].append(prob)
-            if not outside and (out.get('stray_out') or out.get('stray_err')):
+            if not outside and not crashed and (out.get('stray_out') or out.get('stray_err')):
                 obs['problems'].append('output besides the JSON document: stdout %r stderr %r'
                                        % (out.get('stray_out', '')[:80], out.get('stray_err', '')[:80]))
-        if out.get('raised') and not outside:
-            obs['problems'].append('JsonReporter.complete_run raised %s' % out['raised'])
+        if out.get('streams_restored') is False:
+            obs['problems'].append('JsonReporter.complete_run left sys.stdout / sys.stderr redirected to its buffers'
+                                   + (' (it raised %s)' % crashed if crashed else ''))
+        if case['runner'] == 'serial' and obs['exit'] == 3 and not obs.get('stderr', '').strip():
+            obs['problems'].append('exit code 3 but no diagnostic reached the process\' stderr')
     else:
         obs['tokens'] = parse_console(text or '', ids)
     return obs
@@ -599,6 +653,8 @@ def render19(case):
             lines.append('   C19 extras %s: %s' % (t['name'], json.dumps(_extras(t), sort_keys=True)))
     if case.get('verbosity') is not None:
         lines.append('   DOIT_CONFIG verbosity = %s' % case['verbosity'])
+    if case.get('out_encoding'):
+        lines.append('   encoding of the reporter\'s output stream = %s' % case['out_encoding'])
     return lines
 
 
@@ -650,6 +706,8 @@ def count19(st, case, obs):
             st.count('extra:%s=%s' % (k, v))
     if case.get('verbosity') is not None:
         st.count('extra:global_verbosity=%s' % case['verbosity'])
+    if case.get('out_encoding'):
+        st.count('extra:out_encoding=%s' % case['out_encoding'])
     st.count('aborted:%s' % ('no' if not obs.get('aborted') else obs['aborted'].split(' of ')[0]))
     if case['runner'] == 'process':
         ex = [i for i, e in enumerate(obs['full']) if e[0] == 'execute']
@@ -673,6 +731,15 @@ def decorate(c, rng):
     elif r < 0.08 and c['runner'] == 'serial':
         t = rng.choice(real)
         t.setdefault('c19', {})['base_exc'] = rng.choice(['KeyboardInterrupt', 'SystemExit'])
+    for t in real:
+        if t['outcome'] == 'failed' and t.get('how', 'return') == 'return' and not _extras(t).get('base_exc') \
+                and rng.random() < 0.3:
+            t.setdefault('c19', {})['sigkill'] = rng.choice(['KILL', 'TERM'])
+    if c.get('reporter') == 'json' and rng.random() < 0.3:
+        c['out_encoding'] = rng.choice(['ascii', 'latin-1'])
+        for t in real:
+            if not _extras(t).get('base_exc') and rng.random() < 0.7:
+                t.setdefault('c19', {})['prints'] = 'unicode'
     if c.get('reporter') == 'json' and rng.random() < 0.35:
         if rng.random() < 0.5:
             c['verbosity'] = 2
@@ -680,7 +747,7 @@ def decorate(c, rng):
             if _extras(t).get('base_exc'):
                 continue
             if rng.random() < 0.6:
-                t.setdefault('c19', {})['prints'] = True
+                t.setdefault('c19', {}).setdefault('prints', True)
                 if c.get('verbosity') is None or rng.random() < 0.3:
                     t['c19']['verbosity'] = rng.choice([2, 2, 1])
     return c
